@@ -17,11 +17,11 @@ from harness import vlib
 from harness.props import c20_gen, c20_oracle
 
 KF_KINDS = ("recursive-class", "self-type", "slots-descriptor-default", "field-strategy-unannotated",
-            "field-override-container", "final-type", "nt-mutable-default", "defs-bare-name-clash")
+            "field-override-container", "nt-mutable-default", "defs-bare-name-clash", "generic-typevar-leak")
 
 
 def _replay_of(case: dict, res: dict) -> dict:
-    return {"entry": "c20_oracle.run_case", "source": case["source"], "roots": case["roots"], "mode": case["mode"],
+    return {"entry": "c20_oracle.run_case", "source": case["source"], "lib": case.get("lib"), "roots": case["roots"], "mode": case["mode"],
             "params": case["params"], "feats": case["feats"],
             "observed": {k: v for k, v in res.items() if k != "ok"},
             "expected": "no exception; metaschema-valid; refs closed over context.definitions; from_dict/to_dict round trip"}
@@ -31,7 +31,7 @@ def oracle_part(ctx: vlib.Ctx, n: int, label="oracle"):
     r = ctx.rng
     t0 = time.time()
     stats = {"ok": 0, "genfail": 0, "fail": 0, "refs": 0, "defs": 0, "docs": 0}
-    deadline = t0 + (70 if ctx.quick() else 480)
+    deadline = t0 + (60 if ctx.quick() else 480)
     done = 0
     for i in range(n):
         if time.time() > deadline:
@@ -114,8 +114,11 @@ DEGENERATE_SRC = (
     "    d: NT0 = field(default=NT0(), metadata=field_options(serialize='as_dict'))\n    e: TD0 = field(default_factory=dict)\n    f: DC0 = None\n"
     "@dataclass\nclass HD:\n    a: NT0\n    b: CN0 = CN0()\n    c: Optional[Tuple[NT0, CN0]] = None\n"
     "    d: NT0 = field(default=NT0(), metadata=field_options(serialize='as_list'))\n"
-    "    class Config(BaseConfig):\n        namedtuple_as_dict = True\n")
-DEGENERATE_BASES = ["NT0", "CN0", "TD0", "TD0n", "E0", "F0", "DC0", "DCV", "G0", "G0[int]", "HL", "HD", "Tuple[()]", "tuple", "list", "dict",
+    "    class Config(BaseConfig):\n        namedtuple_as_dict = True\n"
+    "WN = NewType('WN', NT0)\n"
+    "@dataclass\nclass HF:\n    a: Final[NT0]\n    b: Final[int] = 1\n    c: Final[List[DC0]] = field(default_factory=list)\n"
+    "    d: Final[Optional[WN]] = None\n    e: Final[Any] = None\n")
+DEGENERATE_BASES = ["NT0", "CN0", "TD0", "TD0n", "E0", "F0", "DC0", "DCV", "G0", "G0[int]", "HL", "HD", "HF", "WN", "Tuple[()]", "tuple", "list", "dict",
                     "List", "Dict", "Sequence[Any]", "Literal[None]", "Any", "Tuple[Any, ...]", "collections.Counter", "frozenset", "Set"]
 DEGENERATE_WRAPS = ["{}", "List[{}]", "Optional[{}]", "Tuple[{}, int]", "Tuple[{}, ...]", "Dict[str, {}]", "Union[{}, int]"]
 
@@ -138,6 +141,101 @@ def degenerate_part(ctx: vlib.Ctx):
                 if not res["ok"]:
                     sig = {"clause": res.get("clause"), "exc": res.get("exc"), "kind": "other", "degenerate": expr}
                     ctx.fail(f"{res['what']} [degenerate shape] root={expr}", _replay_of(case, res), sig)
+
+
+# every kind of default value x every key-dropping / renaming configuration of the owner (the default is rendered through a
+# throw-away class that inherits the owner's Config), on plain dataclasses, each through the full oracle
+DEFAULTS_HEAD = (
+    "import collections, datetime, decimal, enum, uuid, ipaddress, pathlib\nfrom dataclasses import dataclass, field\nfrom typing import *\n"
+    "from mashumaro.config import BaseConfig, ADD_DIALECT_SUPPORT, TO_DICT_ADD_OMIT_NONE_FLAG, TO_DICT_ADD_BY_ALIAS_FLAG\n"
+    "from mashumaro.dialect import Dialect\nfrom mashumaro import field_options, pass_through\n"
+    "class E(enum.Enum):\n    A = 'a'\n    B = 2\nclass IF(enum.IntFlag):\n    R = 1\n    W = 2\n"
+    "class NT(NamedTuple):\n    a: int\n    b: str = 'x'\n"
+    "@dataclass(frozen=True)\nclass Fz:\n    a: int = 0\n    e: E = E.A\n"
+    "class DlAll(Dialect):\n    omit_none = True\n    omit_default = True\n    serialize_by_alias = True\n")
+DEFAULT_KINDS = [
+    ("Tuple[E, ...]", "(E.A,)"), ("Tuple[E, int]", "(E.B, 1)"), ("Tuple[Tuple[E], str]", "((E.A,), 's')"),
+    ("Tuple[datetime.date, ...]", "(datetime.date(2020, 1, 2),)"), ("Tuple[Fz, ...]", "(Fz(), Fz(1))"),
+    ("Tuple[float, ...]", "(float('nan'), float('inf'), -0.0)"), ("Tuple[()]", "()"), ("Tuple[int, str]", "(1, \"it's\")"),
+    ("Tuple[bytes, ...]", "(b'x',)"), ("Tuple[Optional[decimal.Decimal], ...]", "(None, decimal.Decimal('1.5'))"),
+    ("Tuple[IF, ...]", "(IF.R | IF.W,)"), ("Tuple[NT, ...]", "(NT(1),)"), ("Tuple[uuid.UUID, pathlib.PurePosixPath]", "(uuid.UUID(int=0), pathlib.PurePosixPath('/a'))"),
+    ("NT", "NT(1)"), ("E", "E.A"), ("IF", "IF.R | IF.W"), ("float", "float('nan')"), ("float", "float('-inf')"),
+    ("FrozenSet[E]", "frozenset([E.A])"), ("Fz", "Fz()"), ("int", "0"), ("Optional[int]", "None"), ("str", "\"it's\""), ("bytes", "b''"),
+    ("datetime.date", "datetime.date(2020, 1, 2)"), ("uuid.UUID", "uuid.UUID(int=0)"), ("decimal.Decimal", "decimal.Decimal('-0')"),
+    ("Final[Tuple[E, ...]]", "(E.A,)"), ("Final[int]", "1"), ("Final[Optional[NT]]", "None"), ("Any", "(E.A, 1)"),
+]
+DEFAULT_CONFIGS = [
+    [], ["omit_default = True"], ["omit_none = True"], ["serialize_by_alias = True", "aliases = {'x': 'x x'}"],
+    ["dialect = DlAll", "aliases = {'x': '$ref'}"],
+    ["omit_default = True", "code_generation_options = [ADD_DIALECT_SUPPORT, TO_DICT_ADD_OMIT_NONE_FLAG, TO_DICT_ADD_BY_ALIAS_FLAG]"],
+    ["omit_default = True", "omit_none = True", "serialize_by_alias = True", "lazy_compilation = True"],
+]
+
+
+def defaults_part(ctx: vlib.Ctx):
+    params = {"dialect": None, "all_refs": None, "ref_prefix": None, "with_definitions": True, "with_dialect_uri": False, "context": None}
+    for ci, cfg in enumerate(DEFAULT_CONFIGS):
+        lines = [DEFAULTS_HEAD]
+        for ki, (ty, dv) in enumerate(DEFAULT_KINDS):
+            lines.append(f"@dataclass\nclass D{ki}:\n    x: {ty} = {dv}\n    y: int = 0")
+            if cfg:
+                lines.append("    class Config(BaseConfig):\n" + "\n".join("        " + ln for ln in cfg))
+        src = "\n".join(lines) + "\n"
+        for ki, (ty, dv) in enumerate(DEFAULT_KINDS):
+            case = {"source": src, "roots": [f"D{ki}"], "mode": "single", "feats": [{}],
+                    "params": dict(params, all_refs=(ki + ci) % 2 == 1)}
+            res = c20_oracle.run_case(case)
+            if res["ok"] is None:
+                ctx.hist("defaults_grid", "excluded:" + res["what"][:60])
+                continue
+            ctx.count(("defaults", ci, ki))
+            ctx.hist("defaults_grid", "ok" if res["ok"] else "fail")
+            if not res["ok"]:
+                sig = {"clause": res.get("clause"), "exc": res.get("exc"), "kind": "other", "default": dv, "config": "; ".join(cfg)}
+                ctx.fail(f"{res['what']} [default {dv} of type {ty} under Config({'; '.join(cfg)})]", _replay_of(case, res), sig)
+
+
+# types that live in ANOTHER module: string annotations resolvable only there (NamedTuple / TypedDict / dataclass), and a third-party
+# type that is serializable only through a strategy (from Config, from Config.dialect, from both), with defaults of every form
+LIB_HEAD = ("import __C20_LIB__ as lib\nfrom __C20_LIB__ import LNT, LTD, LD, Pt\nfrom dataclasses import dataclass, field\nfrom typing import *\n"
+            "from mashumaro.config import BaseConfig, ADD_DIALECT_SUPPORT\nfrom mashumaro.dialect import Dialect\nfrom mashumaro import DataClassDictMixin\n"
+            "def ser_str(v) -> str:\n    return str(v)\n"
+            "class DP(Dialect):\n    serialization_strategy = {Pt: lib.PT_STRATEGY}\n"
+            "class DPo(Dialect):\n    omit_none = True\n    omit_default = True\n    serialize_by_alias = True\n    serialization_strategy = {Pt: lib.PT_STRATEGY}\n"
+            "class DI(Dialect):\n    serialization_strategy = {int: {'serialize': ser_str}}\n")
+XMOD_FORMS = ["LNT", "List[LNT]", "Optional[LNT]", "Tuple[LNT, ...]", "Dict[str, LNT]", "Tuple[LNT, int]", "Union[LNT, int]", "Final[LNT]",
+              "LTD", "List[LTD]", "LD", "Optional[LD]", "Dict[str, List[LD]]"]
+TP_FORMS = [("Pt", "Pt(1)"), ("Optional[Pt]", "None"), ("Optional[Pt]", "Pt(2)"), ("Tuple[Pt, ...]", "(Pt(1), Pt())"), ("Tuple[Pt, int]", "(Pt(3), 1)"),
+            ("List[Pt]", "field(default_factory=list)"), ("Dict[str, Pt]", "field(default_factory=dict)"), ("Union[Pt, None, int]", "Pt(4)"),
+            ("Final[Pt]", "Pt(5)"), ("Pt", None)]
+TP_CONFIGS = [["serialization_strategy = {Pt: lib.PT_STRATEGY}"], ["dialect = DP"], ["dialect = DPo", "aliases = {'x': 'x x'}"],
+              ["dialect = DI", "serialization_strategy = {Pt: lib.PT_STRATEGY}"], ["dialect = DP", "omit_default = True", "omit_none = True"],
+              ["dialect = DP", "code_generation_options = [ADD_DIALECT_SUPPORT]", "lazy_compilation = True"]]
+
+
+def library_part(ctx: vlib.Ctx):
+    from harness.props.c20_gen import LIB_SRC
+    base = {"dialect": None, "all_refs": None, "ref_prefix": None, "with_definitions": True, "with_dialect_uri": False, "context": None}
+    cases = []
+    for i, form in enumerate(XMOD_FORMS):
+        for j, cfg in enumerate(([], ["namedtuple_as_dict = True", "omit_none = True"])):
+            src = LIB_HEAD + f"@dataclass\nclass X:\n    x: {form}\n    y: int = 0\n" + ("    class Config(BaseConfig):\n" + "".join(f"        {c}\n" for c in cfg) if cfg else "")
+            cases.append((f"xmod {form} Config({'; '.join(cfg)})", src, (i + j) % 2 == 1))
+    for i, (ty, dv) in enumerate(TP_FORMS):
+        for j, cfg in enumerate(TP_CONFIGS):
+            base_cls = "(DataClassDictMixin)" if (i + j) % 3 == 0 else ""
+            src = LIB_HEAD + f"@dataclass\nclass X{base_cls}:\n    x: {ty}" + (f" = {dv}" if dv else "") + "\n    class Config(BaseConfig):\n" + "".join(f"        {c}\n" for c in cfg)
+            cases.append((f"third-party {ty} = {dv} Config({'; '.join(cfg)})", src, (i + j) % 2 == 0))
+    for label, src, ar in cases:
+        case = {"source": src, "lib": LIB_SRC, "roots": ["X"], "mode": "single", "feats": [{}], "params": dict(base, all_refs=ar)}
+        res = c20_oracle.run_case(case)
+        if res["ok"] is None:
+            ctx.hist("library_grid", "excluded:" + res["what"][:70])
+            continue
+        ctx.count(("library", label))
+        ctx.hist("library_grid", "ok" if res["ok"] else "fail")
+        if not res["ok"]:
+            ctx.fail(f"{res['what']} [{label}]", _replay_of(case, res), {"clause": res.get("clause"), "exc": res.get("exc"), "kind": "other", "grid": label})
 
 
 def directed_part(ctx: vlib.Ctx):
@@ -188,6 +286,8 @@ def run(ctx: vlib.Ctx):
         n = ctx.budget(2500, 16000)
     directed_part(ctx)
     degenerate_part(ctx)
+    defaults_part(ctx)
+    library_part(ctx)
     oracle_part(ctx, n)
     ctx.trusted.append("jsonschema package (Draft202012Validator.check_schema incl. format checks) as the metaschema validator of the oracle")
     ctx.trusted.append("harness/props/c20_gen.py: the feature predicates (cyclic, Self, slots, field-level overrides, Final, NamedTuple "
@@ -200,7 +300,8 @@ def run(ctx: vlib.Ctx):
 
 def replay(rep: dict) -> int:
     if rep.get("entry") == "c20_oracle.run_case":
-        case = {"source": rep["source"], "roots": rep["roots"], "mode": rep["mode"], "params": rep["params"], "feats": rep.get("feats", [{}])}
+        case = {"source": rep["source"], "lib": rep.get("lib"), "roots": rep["roots"], "mode": rep["mode"], "params": rep["params"],
+                "feats": rep.get("feats", [{}])}
         res = c20_oracle.run_case(case)
         print("roots", rep["roots"], "mode", rep["mode"], "params", rep["params"])
         print("observed now:", {k: v for k, v in res.items()})
